@@ -805,6 +805,48 @@ def _snapshot(v):
     return v if v is _MISSING else clone(v)
 
 
+def _raised_class(node):
+    """name of the exception class a `raise` statement raises (`raise X`, `raise X(...)`, `raise m.X(...)`), else None"""
+    e = getattr(node, "exc", None)
+    if isinstance(e, ast.Call):
+        e = e.func
+    if isinstance(e, ast.Name):
+        return e.id
+    if isinstance(e, ast.Attribute):
+        return e.attr
+    return None
+
+
+def _catches(handler, kind):
+    """does `except <types>` catch an exception of class `kind`: True / False / None (not decidable: classes outside the builtin hierarchy)"""
+    import builtins
+    if handler.type is None:
+        return True
+    names = []
+    for t_ in (handler.type.elts if isinstance(handler.type, ast.Tuple) else [handler.type]):
+        names.append(t_.id if isinstance(t_, ast.Name) else (t_.attr if isinstance(t_, ast.Attribute) else None))
+    kc = getattr(builtins, kind, None)
+    kc = kc if isinstance(kc, type) and issubclass(kc, BaseException) else None
+    undecided = False
+    for nm in names:
+        if nm is None:
+            undecided = True
+            continue
+        if nm == kind or nm in ("Exception", "BaseException") and (kc is None or issubclass(kc, getattr(builtins, nm))):
+            return True
+        hc = getattr(builtins, nm, None)
+        hc = hc if isinstance(hc, type) and issubclass(hc, BaseException) else None
+        if kc is not None and hc is not None:
+            if issubclass(kc, hc):
+                return True
+        elif kc is None and hc is None:
+            undecided = True           # two classes the evaluator knows nothing about
+        elif kc is None:
+            undecided = True           # a user / library class may derive from the builtin named in the handler
+        # a builtin exception is never an instance of a library class
+    return None if undecided else False
+
+
 def _only_raises(stmts):
     """an arm that can do nothing but raise"""
     if not stmts:
@@ -1482,6 +1524,10 @@ class Interp:
             return b * int(cval(a))
         if isinstance(a, (IterV, RepeatV, RangeV, DictV)) or isinstance(b, (IterV, RepeatV, RangeV, DictV)):
             return Unknown("arithmetic on an iterator / dict")
+        if isinstance(a, bool):
+            a = F.const(int(a))                 # True is 1 in arithmetic
+        if isinstance(b, bool):
+            b = F.const(int(b))
         a, b = to_rat(a), to_rat(b)
         if is_unknown(a):
             return a
@@ -2506,6 +2552,8 @@ class Interp:
             if is_const(v):
                 return F.const(abs(cval(v)))
             return F.fn("abs", v)
+        if name in ("int", "float") and n == 1 and isinstance(pos[0], bool):
+            return F.const(int(pos[0]))
         if name == "int" and n == 1:
             if is_const(pos[0]):
                 c = cval(pos[0])
@@ -2524,6 +2572,14 @@ class Interp:
             return NotImplemented
         if name == "type" and n == 1 and not kw and isinstance(pos[0], Obj) and pos[0].cls is not None:
             return pos[0].cls
+        if name == "setattr" and n == 3 and not kw:
+            if isinstance(pos[0], Obj) and isinstance(pos[1], str):
+                self._set_attr(pos[0], pos[1], pos[2])
+                return None
+            return Unknown("setattr on a value that is not an object of the module / with a computed name")
+        if name == "hasattr" and n == 2 and isinstance(pos[0], Obj) and isinstance(pos[1], str):
+            r = self._getattr(pos[0], pos[1], node)
+            return Unknown("hasattr of an attribute the evaluator does not know") if is_unknown(r) else True
         if name == "getattr" and n in (2, 3):
             if not isinstance(pos[1], str):
                 return Unknown("getattr with a computed name")
@@ -2596,9 +2652,15 @@ class Interp:
                         return Crash("IndexError: operator.itemgetter beyond the end of a sequence")
                 return Unknown("operator.itemgetter of a value that is not a literal sequence")
             return Native("itemgetter", getter)
-        if name == "operator.attrgetter" and n == 1 and not kw and isinstance(pos[0], str) and "." not in pos[0]:
-            a0 = pos[0]
-            return Native("attrgetter", lambda it_, p_, k_, nd_: it_._getattr(p_[0], a0, nd_) if len(p_) == 1 else Unknown("attrgetter"))
+        if name == "operator.attrgetter" and n >= 1 and not kw and all(isinstance(p_, str) and "." not in p_ for p_ in pos):
+            names_ = list(pos)
+
+            def agetter(it_, p_, k_, nd_):
+                if len(p_) != 1:
+                    return Unknown("attrgetter")
+                vs = [it_._getattr(p_[0], a_, nd_) for a_ in names_]
+                return vs[0] if len(vs) == 1 else tuple(vs)
+            return Native("attrgetter", agetter)
         if name == "operator.methodcaller" and n >= 1 and isinstance(pos[0], str):
             m0, pre, prekw = pos[0], list(pos[1:]), dict(kw)
 
@@ -3025,7 +3087,11 @@ class Interp:
             raise Unsupported(f"assignment target {type(t).__name__}")
 
     def _store_subscript(self, t, v, fr, st, aug):
+        if is_crash(v):
+            raise _CrashSig(v)
         base = self.ev(t.value, fr)
+        if is_crash(base):
+            raise _CrashSig(base)
         if isinstance(base, DictV):
             kv = self.ev(t.slice, fr)
             k = key_of(kv)
@@ -3326,10 +3392,11 @@ class Interp:
                     if r is not False:
                         und = True
                 return None if und else False
-            if isinstance(pat, ast.MatchAs) and pat.pattern is None:
-                if pat.name is not None:
+            if isinstance(pat, ast.MatchAs):
+                r = True if pat.pattern is None else matches(pat.pattern)
+                if r is True and pat.name is not None:
                     self._set_var(fr, pat.name, subj)
-                return True
+                return r
             raise Unsupported(f"match pattern {type(pat).__name__} at line {st.lineno}")
 
         for case in st.cases:
@@ -3353,27 +3420,63 @@ class Interp:
         self.run(st.body, fr)
 
     def _s_Try(self, st, fr):
+        """the body; an exception raised in it for certain (a `raise` reached on the evaluated path, an expression that raises: Crash) is
+        handled by the first handler that catches its class (builtin hierarchy; other classes by name), the state being what the body
+        left up to that point; `else` after a body that completed; `finally` in every case"""
+        def finish():
+            if st.finalbody:
+                self.run(st.finalbody, fr)
+
+        def handle(kind, reraise):
+            for h_ in st.handlers:
+                c = _catches(h_, kind)
+                if c is None:
+                    raise Unsupported(f"cannot decide whether `except {ast.unparse(h_.type) if h_.type is not None else ''}` at line {h_.lineno} catches {kind}")
+                if c:
+                    if h_.name:
+                        self._set_var(fr, h_.name, Unknown(f"the {kind} caught at line {h_.lineno}"))
+                    try:
+                        self.run(h_.body, fr)
+                    except _Raise as r2:
+                        if isinstance(r2.node, ast.Raise) and r2.node.exc is None:
+                            finish()
+                            raise reraise                  # a bare `raise` in the handler: the exception goes on
+                        finish()
+                        raise
+                    except (_Return, _Break, _Continue, _CrashSig):
+                        finish()
+                        raise
+                    finish()
+                    return
+            finish()
+            raise reraise
+
         try:
             self.run(st.body, fr)
-        except _Raise:
-            if st.handlers:
-                raise Unsupported(f"`raise` inside `try` at line {st.lineno}")
-            raise
+        except _Raise as r:
+            if not st.handlers:
+                finish()
+                raise
+            kind = _raised_class(r.node)
+            if kind is None:
+                raise Unsupported(f"`raise` of an exception whose class is not evident inside `try` at line {st.lineno}")
+            handle(kind, r)
+            return
         except _CrashSig as c:
-            kind = c.crash.why.split(":")[0]
-            catchers = {"Exception", "BaseException", kind} | ({"LookupError"} if kind in ("IndexError", "KeyError") else set())
-            for h_ in st.handlers:
-                names = []
-                if h_.type is None:
-                    names = ["BaseException"]
-                else:
-                    for t_ in (h_.type.elts if isinstance(h_.type, ast.Tuple) else [h_.type]):
-                        names.append(t_.id if isinstance(t_, ast.Name) else (t_.attr if isinstance(t_, ast.Attribute) else "Exception"))
-                if any(n_ in catchers for n_ in names):
-                    raise Unsupported(f"an exception inside `try` at line {st.lineno} (a handler may catch it): {c.crash.why}")
+            if not st.handlers:
+                finish()
+                raise
+            handle(c.crash.why.split(":")[0], c)
+            return
+        except (_Return, _Break, _Continue):
+            finish()
             raise
-        self.run(st.orelse, fr)
-        self.run(st.finalbody, fr)
+        try:
+            self.run(st.orelse, fr)
+        except (_Return, _Break, _Continue, _Raise, _CrashSig):
+            finish()
+            raise
+        finish()
 
     def _s_For(self, st, fr):
         try:
